@@ -670,13 +670,24 @@ func (e *e1Engine) eval(fn *ssa.Function, row *Row) e1Result {
 		}
 		res.nIfs++
 		at := condAtom(iff.Cond)
+		direct := false
 		for i, l := range row.Assume {
 			if e.re(l.Re).MatchString(at.Str) {
+				direct = true
 				res.matched[i]++
 				truth := l.Val
 				if at.Neg {
 					truth = !truth
 				}
+				if truth {
+					keep[b] = 0
+				} else {
+					keep[b] = 1
+				}
+			}
+		}
+		if !direct && len(row.Assume) > 0 {
+			if known, truth := e.helperBool(iff.Cond, row.Assume, res.matched); known {
 				if truth {
 					keep[b] = 0
 				} else {
@@ -998,7 +1009,7 @@ func (e *e1Engine) boolUnder(v ssa.Value, lits []Lit, matched []int) (bool, bool
 			return true, t
 		}
 	}
-	return false, false
+	return e.helperBool(v, lits, matched)
 }
 
 // phiResolver, when set, lets desc render a phi through its single feasible
